@@ -1036,6 +1036,11 @@ class PolarsModel(data_algebra.data_model.DataModel):
             # no key columns: every pair of rows matches. Polars wants keys for every
             # join type but cross, so join on a constant scratch column.
             scratch_col = "_da_join_tmp_no_key"
+            taken = set(op.sources[0].columns_produced()).union(
+                op.sources[1].columns_produced()
+            )
+            while scratch_col in taken:
+                scratch_col = scratch_col + "_"
             inputs = [inp.with_columns(pl.lit(1).alias(scratch_col)) for inp in inputs]
             on_a = [scratch_col]
             on_b = [scratch_col]
